@@ -1,5 +1,5 @@
 // auto-generated: "lalrpop 0.23.1"
-// sha3: 721d81601212e4120ea92004bcc1e370c583dd31df52628064197ab0f041f0fe
+// sha3: ddcfb0f9f869a4c8898c4b2bbd3a744d243d0382a05839e946a8092a589bbafc
 use crate::rt::*;
 #[allow(unused_extern_crates)]
 extern crate lalrpop_util as __lalrpop_util;
@@ -29,42 +29,42 @@ mod __parse__S {
     }
     const __ACTION: &[i8] = &[
         // State 0
-        2, 3, 0, 0, 0, 0,
+        2, 3, 0, 0, 0, 0, 0,
         // State 1
-        0, 0, 0, 0, 4, 0,
+        0, 0, 0, 0, 4, 5, 0,
         // State 2
-        0, 0, 0, 0, 5, 0,
+        0, 0, 0, 0, 4, 5, 0,
         // State 3
-        0, 0, 0, 0, 0, 14,
+        0, 0, 0, 0, 0, 0, 14,
         // State 4
-        0, 0, 0, 0, 0, 14,
+        0, 0, 0, 0, 0, 0, 14,
         // State 5
-        0, 0, 0, 0, 0, 0,
+        0, 0, 0, 0, 0, 0, 0,
         // State 6
-        0, 0, 0, 11, 0, 0,
+        0, 0, 0, 11, 0, 0, 0,
         // State 7
-        0, 0, 12, 0, 0, 0,
+        0, 0, 12, 0, 0, 0, 0,
         // State 8
-        0, 0, 15, 0, 0, 0,
+        0, 0, 16, 0, 0, 0, 0,
         // State 9
-        0, 0, 0, 16, 0, 0,
+        0, 0, 0, 17, 0, 0, 0,
         // State 10
-        0, 0, 0, 0, 0, 0,
+        0, 0, 0, 0, 0, 0, 0,
         // State 11
-        0, 0, 0, 0, 0, 0,
+        0, 0, 0, 0, 0, 0, 0,
         // State 12
-        0, 0, -9, -8, 0, 0,
+        0, 0, -7, -7, 0, 0, 0,
         // State 13
-        0, 0, -3, -3, 0, 0,
+        0, 0, -8, -8, 0, 0, 0,
         // State 14
-        0, 0, 0, 0, 0, 0,
+        0, 0, -9, -9, 0, 0, 0,
         // State 15
-        0, 0, 0, 0, 0, 0,
+        0, 0, 0, 0, 0, 0, 0,
         // State 16
-        0, 0, -8, -9, 0, 0,
+        0, 0, 0, 0, 0, 0, 0,
     ];
     fn __action(state: i8, integer: usize) -> i8 {
-        __ACTION[(state as usize) * 6 + integer]
+        __ACTION[(state as usize) * 7 + integer]
     }
     const __EOF_ACTION: &[i8] = &[
         // State 0
@@ -88,7 +88,7 @@ mod __parse__S {
         // State 9
         0,
         // State 10
-        -4,
+        -3,
         // State 11
         -5,
         // State 12
@@ -96,22 +96,22 @@ mod __parse__S {
         // State 13
         0,
         // State 14
-        -6,
-        // State 15
-        -7,
-        // State 16
         0,
+        // State 15
+        -4,
+        // State 16
+        -6,
     ];
     fn __goto(state: i8, nt: usize) -> i8 {
         match nt {
-            2 => match state {
-                4 => 16,
-                _ => 12,
-            },
-            3 => 5,
-            4 => match state {
+            2 => 5,
+            3 => match state {
                 2 => 8,
                 _ => 6,
+            },
+            4 => match state {
+                4 => 14,
+                _ => 12,
             },
             5 => match state {
                 2 => 9,
@@ -127,7 +127,8 @@ mod __parse__S {
         r###""c""###,
         r###""d""###,
         r###""e""###,
-        r###""q""###,
+        r###""f""###,
+        r###""x""###,
     ];
     fn __expected_tokens(__state: i8) -> alloc::vec::Vec<alloc::string::String> {
         __TERMINAL.iter().enumerate().filter_map(|(index, terminal)| {
@@ -194,7 +195,7 @@ mod __parse__S {
 
         #[inline]
         fn error_action(&self, state: i8) -> i8 {
-            __action(state, 6 - 1)
+            __action(state, 7 - 1)
         }
 
         #[inline]
@@ -266,6 +267,7 @@ mod __parse__S {
             Tok('d', _, _, _) if true => Some(3),
             Tok('e', _, _, _) if true => Some(4),
             Tok('f', _, _, _) if true => Some(5),
+            Tok('g', _, _, _) if true => Some(6),
             _ => None,
         }
     }
@@ -277,7 +279,7 @@ mod __parse__S {
     ) -> __Symbol<>
     {
         #[allow(clippy::manual_range_patterns)]match __token_index {
-            0 | 1 | 2 | 3 | 4 | 5 => __Symbol::Variant0(__token),
+            0 | 1 | 2 | 3 | 4 | 5 | 6 => __Symbol::Variant0(__token),
             _ => unreachable!(),
         }
     }
@@ -302,37 +304,37 @@ mod __parse__S {
             }
             2 => {
                 __state_machine::SimulatedReduce::Reduce {
-                    states_to_pop: 1,
+                    states_to_pop: 3,
                     nonterminal_produced: 2,
                 }
             }
             3 => {
                 __state_machine::SimulatedReduce::Reduce {
                     states_to_pop: 3,
-                    nonterminal_produced: 3,
+                    nonterminal_produced: 2,
                 }
             }
             4 => {
                 __state_machine::SimulatedReduce::Reduce {
                     states_to_pop: 3,
-                    nonterminal_produced: 3,
+                    nonterminal_produced: 2,
                 }
             }
             5 => {
                 __state_machine::SimulatedReduce::Reduce {
                     states_to_pop: 3,
-                    nonterminal_produced: 3,
+                    nonterminal_produced: 2,
                 }
             }
             6 => {
                 __state_machine::SimulatedReduce::Reduce {
-                    states_to_pop: 3,
+                    states_to_pop: 2,
                     nonterminal_produced: 3,
                 }
             }
             7 => {
                 __state_machine::SimulatedReduce::Reduce {
-                    states_to_pop: 2,
+                    states_to_pop: 1,
                     nonterminal_produced: 4,
                 }
             }
@@ -532,13 +534,16 @@ mod __parse__S {
         _: core::marker::PhantomData<()>,
     ) -> (usize, usize)
     {
-        // Q = "q" => ActionFn(17);
+        // S = "a", X, "d" => ActionFn(17);
+        assert!(__symbols.len() >= 3);
+        let __sym2 = __pop_Variant0(__symbols);
+        let __sym1 = __pop_Variant2(__symbols);
         let __sym0 = __pop_Variant0(__symbols);
         let __start = __sym0.0.clone();
-        let __end = __sym0.2.clone();
-        let __nt = super::__action17::<>(__sym0);
+        let __end = __sym2.2.clone();
+        let __nt = super::__action17::<>(__sym0, __sym1, __sym2);
         __symbols.push((__start, __Symbol::Variant2(__nt), __end));
-        (1, 2)
+        (3, 2)
     }
     fn __reduce3<
     >(
@@ -547,7 +552,7 @@ mod __parse__S {
         _: core::marker::PhantomData<()>,
     ) -> (usize, usize)
     {
-        // S = "a", X, "d" => ActionFn(18);
+        // S = "b", X, "c" => ActionFn(18);
         assert!(__symbols.len() >= 3);
         let __sym2 = __pop_Variant0(__symbols);
         let __sym1 = __pop_Variant2(__symbols);
@@ -556,7 +561,7 @@ mod __parse__S {
         let __end = __sym2.2.clone();
         let __nt = super::__action18::<>(__sym0, __sym1, __sym2);
         __symbols.push((__start, __Symbol::Variant2(__nt), __end));
-        (3, 3)
+        (3, 2)
     }
     fn __reduce4<
     >(
@@ -574,7 +579,7 @@ mod __parse__S {
         let __end = __sym2.2.clone();
         let __nt = super::__action19::<>(__sym0, __sym1, __sym2);
         __symbols.push((__start, __Symbol::Variant2(__nt), __end));
-        (3, 3)
+        (3, 2)
     }
     fn __reduce5<
     >(
@@ -583,7 +588,7 @@ mod __parse__S {
         _: core::marker::PhantomData<()>,
     ) -> (usize, usize)
     {
-        // S = "b", X, "c" => ActionFn(20);
+        // S = "b", Y, "d" => ActionFn(20);
         assert!(__symbols.len() >= 3);
         let __sym2 = __pop_Variant0(__symbols);
         let __sym1 = __pop_Variant2(__symbols);
@@ -592,7 +597,7 @@ mod __parse__S {
         let __end = __sym2.2.clone();
         let __nt = super::__action20::<>(__sym0, __sym1, __sym2);
         __symbols.push((__start, __Symbol::Variant2(__nt), __end));
-        (3, 3)
+        (3, 2)
     }
     fn __reduce6<
     >(
@@ -601,16 +606,15 @@ mod __parse__S {
         _: core::marker::PhantomData<()>,
     ) -> (usize, usize)
     {
-        // S = "b", Y, "d" => ActionFn(21);
-        assert!(__symbols.len() >= 3);
-        let __sym2 = __pop_Variant0(__symbols);
+        // X = "e", X2 => ActionFn(21);
+        assert!(__symbols.len() >= 2);
         let __sym1 = __pop_Variant2(__symbols);
         let __sym0 = __pop_Variant0(__symbols);
         let __start = __sym0.0.clone();
-        let __end = __sym2.2.clone();
-        let __nt = super::__action21::<>(__sym0, __sym1, __sym2);
+        let __end = __sym1.2.clone();
+        let __nt = super::__action21::<>(__sym0, __sym1);
         __symbols.push((__start, __Symbol::Variant2(__nt), __end));
-        (3, 3)
+        (2, 3)
     }
     fn __reduce7<
     >(
@@ -619,15 +623,13 @@ mod __parse__S {
         _: core::marker::PhantomData<()>,
     ) -> (usize, usize)
     {
-        // X = "e", Q => ActionFn(22);
-        assert!(__symbols.len() >= 2);
-        let __sym1 = __pop_Variant2(__symbols);
+        // X2 = "x" => ActionFn(22);
         let __sym0 = __pop_Variant0(__symbols);
         let __start = __sym0.0.clone();
-        let __end = __sym1.2.clone();
-        let __nt = super::__action22::<>(__sym0, __sym1);
+        let __end = __sym0.2.clone();
+        let __nt = super::__action22::<>(__sym0);
         __symbols.push((__start, __Symbol::Variant2(__nt), __end));
-        (2, 4)
+        (1, 4)
     }
     fn __reduce8<
     >(
@@ -636,7 +638,7 @@ mod __parse__S {
         _: core::marker::PhantomData<()>,
     ) -> (usize, usize)
     {
-        // Y = "e", Q => ActionFn(23);
+        // Y = "f", X2 => ActionFn(23);
         assert!(__symbols.len() >= 2);
         let __sym1 = __pop_Variant2(__symbols);
         let __sym0 = __pop_Variant0(__symbols);
@@ -743,7 +745,7 @@ fn __action7<
     (_, r, _): (i64, i64, i64),
 ) -> Tree
 {
-    node("Q#0", l, r, vec![Tree::from(c0)])
+    node("X2#0", l, r, vec![Tree::from(c0)])
 }
 
 #[allow(clippy::needless_lifetimes, clippy::clone_on_copy)]
@@ -771,28 +773,6 @@ fn __action9<
 fn __action10<
 >(
     __0: (i64, Tok, i64),
-    __1: (i64, i64, i64),
-) -> Tree
-{
-    let __start0 = __0.0.clone();
-    let __end0 = __0.0.clone();
-    let __temp0 = __action9(
-        &__start0,
-        &__end0,
-    );
-    let __temp0 = (__start0, __temp0, __end0);
-    __action7(
-        __temp0,
-        __0,
-        __1,
-    )
-}
-
-#[allow(clippy::too_many_arguments, clippy::needless_lifetimes,
-    clippy::just_underscores_and_digits, clippy::clone_on_copy, clippy::unit_arg)]
-fn __action11<
->(
-    __0: (i64, Tok, i64),
     __1: (i64, Tree, i64),
     __2: (i64, Tok, i64),
     __3: (i64, i64, i64),
@@ -816,7 +796,7 @@ fn __action11<
 
 #[allow(clippy::too_many_arguments, clippy::needless_lifetimes,
     clippy::just_underscores_and_digits, clippy::clone_on_copy, clippy::unit_arg)]
-fn __action12<
+fn __action11<
 >(
     __0: (i64, Tok, i64),
     __1: (i64, Tree, i64),
@@ -842,7 +822,7 @@ fn __action12<
 
 #[allow(clippy::too_many_arguments, clippy::needless_lifetimes,
     clippy::just_underscores_and_digits, clippy::clone_on_copy, clippy::unit_arg)]
-fn __action13<
+fn __action12<
 >(
     __0: (i64, Tok, i64),
     __1: (i64, Tree, i64),
@@ -868,7 +848,7 @@ fn __action13<
 
 #[allow(clippy::too_many_arguments, clippy::needless_lifetimes,
     clippy::just_underscores_and_digits, clippy::clone_on_copy, clippy::unit_arg)]
-fn __action14<
+fn __action13<
 >(
     __0: (i64, Tok, i64),
     __1: (i64, Tree, i64),
@@ -894,7 +874,7 @@ fn __action14<
 
 #[allow(clippy::too_many_arguments, clippy::needless_lifetimes,
     clippy::just_underscores_and_digits, clippy::clone_on_copy, clippy::unit_arg)]
-fn __action15<
+fn __action14<
 >(
     __0: (i64, Tok, i64),
     __1: (i64, Tree, i64),
@@ -913,6 +893,28 @@ fn __action15<
         __0,
         __1,
         __2,
+    )
+}
+
+#[allow(clippy::too_many_arguments, clippy::needless_lifetimes,
+    clippy::just_underscores_and_digits, clippy::clone_on_copy, clippy::unit_arg)]
+fn __action15<
+>(
+    __0: (i64, Tok, i64),
+    __1: (i64, i64, i64),
+) -> Tree
+{
+    let __start0 = __0.0.clone();
+    let __end0 = __0.0.clone();
+    let __temp0 = __action9(
+        &__start0,
+        &__end0,
+    );
+    let __temp0 = (__start0, __temp0, __end0);
+    __action7(
+        __temp0,
+        __0,
+        __1,
     )
 }
 
@@ -945,10 +947,12 @@ fn __action16<
 fn __action17<
 >(
     __0: (i64, Tok, i64),
+    __1: (i64, Tree, i64),
+    __2: (i64, Tok, i64),
 ) -> Tree
 {
-    let __start0 = __0.2.clone();
-    let __end0 = __0.2.clone();
+    let __start0 = __2.2.clone();
+    let __end0 = __2.2.clone();
     let __temp0 = __action8(
         &__start0,
         &__end0,
@@ -956,6 +960,8 @@ fn __action17<
     let __temp0 = (__start0, __temp0, __end0);
     __action10(
         __0,
+        __1,
+        __2,
         __temp0,
     )
 }
@@ -1038,30 +1044,6 @@ fn __action21<
 >(
     __0: (i64, Tok, i64),
     __1: (i64, Tree, i64),
-    __2: (i64, Tok, i64),
-) -> Tree
-{
-    let __start0 = __2.2.clone();
-    let __end0 = __2.2.clone();
-    let __temp0 = __action8(
-        &__start0,
-        &__end0,
-    );
-    let __temp0 = (__start0, __temp0, __end0);
-    __action14(
-        __0,
-        __1,
-        __2,
-        __temp0,
-    )
-}
-
-#[allow(clippy::too_many_arguments, clippy::needless_lifetimes,
-    clippy::just_underscores_and_digits, clippy::clone_on_copy, clippy::unit_arg)]
-fn __action22<
->(
-    __0: (i64, Tok, i64),
-    __1: (i64, Tree, i64),
 ) -> Tree
 {
     let __start0 = __1.2.clone();
@@ -1071,9 +1053,29 @@ fn __action22<
         &__end0,
     );
     let __temp0 = (__start0, __temp0, __end0);
-    __action15(
+    __action14(
         __0,
         __1,
+        __temp0,
+    )
+}
+
+#[allow(clippy::too_many_arguments, clippy::needless_lifetimes,
+    clippy::just_underscores_and_digits, clippy::clone_on_copy, clippy::unit_arg)]
+fn __action22<
+>(
+    __0: (i64, Tok, i64),
+) -> Tree
+{
+    let __start0 = __0.2.clone();
+    let __end0 = __0.2.clone();
+    let __temp0 = __action8(
+        &__start0,
+        &__end0,
+    );
+    let __temp0 = (__start0, __temp0, __end0);
+    __action15(
+        __0,
         __temp0,
     )
 }
